@@ -1,53 +1,98 @@
 import AsynqModel.Lib.Asyncio
 import AsynqModel.Proofs.Asyncio
+import AsynqModel.Proofs.AsyncioSem
+import AsynqModel.Proofs.AsyncioLock
 import AsynqModel.Proofs.AsyncioSpec
+import AsynqModel.Proofs.AsyncioCanon
 import AsynqModel.Proofs.AsyncioFixed
 /-!
-# C15  fn.asyncio() under an event loop matches the asynq result   (after the repair of convert_asynq_to_async)
+# C15  fn.asyncio() under an event loop matches the asynq result
 
-Theorems about the model `AsynqModel.Asyncio` (asynq/asynq_to_async.py, asynq/decorators.py) for EVERY batch-free program:
-every call kind (function, method, pure, async_proxy, non-generator), with or without an explicit `asyncio_fn`, every
-nesting of tuples / lists / dicts of ANY width and depth, raises (of `Exception`s and of BaseException-only errors) and
-try/except at every yield, `return` and `asynq.result()` of ANY kind of object (`valueKind`).
+Theorems about the model `AsynqModel.Asyncio` of asynq/asynq_to_async.py and asynq/decorators.py.  The reference ("what
+`fn(args)` gives") is the evaluator `bodyR` / `ysR` of the same file - the sequential depth-first evaluation with asynq's
+`unwrap` rule; it is tied to the real `fn(args)` and `fn.asynq(args).value()` by the correspondence check (conventions
+`call` and `value`), not to `Core.Seq` by a theorem.
 
-The statements named `_partial` carry the hypothesis `p.safe` (every handler of the program is `except Exception`, or the
-program raises no BaseException-only error):
-a BaseException-only error of an awaited child is thrown into the generator by asynq but leaves the `while` loop of
-`convert_asynq_to_async` (`except Exception as exc`) without being delivered, so a handler that would catch it
-(`except BaseException`, bare `except`, `finally`) behaves differently: `C15_base_handler_counterexample`.
+Programs: every call kind (function, method, pure, async_proxy, non-generator), with or without an explicit `asyncio_fn`,
+every nesting of tuples / lists / dicts of ANY width and depth, raises (of `Exception`s and of BaseException-only errors)
+and try/except at every yield, `return` and `asynq.result()` of ANY kind of object (`valueKind`), plain synchronous calls,
+yielded instances of SUBCLASSES of tuple / list / dict (`Ys.sub`), async_proxy functions returning None or a container
+instead of one future (`Ys.pval`).
+
+The equivalence statements (named `_partial`) carry two decidable side conditions, each with a machine-checked
+counterexample showing that it cannot be dropped FOR THE CODE AS IT IS:
+* `p.safe`   - every handler of the program is `except Exception`, or the program raises no BaseException-only error
+               (`C15_base_handler_counterexample`);
+* `p.plainY` - no yielded container is an instance of a subclass and no async_proxy function returns a non-future
+               (`C15_container_subclass_counterexample`, `C15_proxy_value_counterexample`);
+and, where they speak about outcomes, `p.noSync` or "the asyncio run logged no synchronous call": a plain synchronous call
+is refused under asyncio by design (`C15_noSync_necessary`).
+
+## Section A: statements with content (induction over all programs)
 -/
 namespace AsynqModel.Asyncio
 open AsynqModel.Core (Val)
 
 /-- **equivalence** (programs without plain synchronous calls): awaiting `fn.asyncio(args)` - started in any context
     state `s` - gives exactly the value / exception of `fn(args)`, which is also what `fn.asynq(args).value()` gives -/
-theorem C15_equiv_partial (c : Call) (p : Prog) (s s' : St) (hs : p.noSync = true) (hx : p.safe = true)
-    (hm' : s'.mode = false) :
+theorem C15_equiv_partial (c : Call) (p : Prog) (s s' : St) (hs : p.noSync = true) (hy : p.plainY = true)
+    (hx : p.safe = true) (hm' : s'.mode = false) :
     (topA c p s).1 = (topCall c p s').1 ∧ (topValue c p s').1 = (topCall c p s').1 := by
-  have h := equiv_noRes c (Prog.unres p) s s' (Prog.unres_noRes p) (by rw [Prog.unres_noSync]; exact hs)
-    (by rw [Prog.unres_safe]; exact hx) hm'
-  simpa [topA_unres, topCall_unres, topValue_unres] using h
+  refine ⟨?_, by rw [topValue_eq_topCall c p s' hm']⟩
+  rw [topA_eq]
+  simp only [topCall, hm', Bool.false_eq_true, if_false]
+  exact bodyA_eq_bodyR p _ _ _ _ _ _ _ (by simp) (by simp [hm']) hy hs (Safe.ofBool hx)
 
 /-- **equivalence, semantic form**: a program may contain plain synchronous calls; if the asyncio run attempts none of
     them (none is logged), it still gives exactly the outcome of `fn(args)` -/
-theorem C15_equiv_run_partial (c : Call) (p : Prog) (s' : St) (hx : p.safe = true) (hm' : s'.mode = false)
-    (hn : (topA c p {}).2.log.any isSyncX = false) : (topA c p {}).1 = (topCall c p s').1 := by
-  have h := equiv_run_noRes c (Prog.unres p) s' (Prog.unres_noRes p) (by rw [Prog.unres_safe]; exact hx) hm'
-    (by simpa [topA_unres] using hn)
-  simpa [topA_unres, topCall_unres] using h
+theorem C15_equiv_run_partial (c : Call) (p : Prog) (s' : St) (hy : p.plainY = true) (hx : p.safe = true)
+    (hm' : s'.mode = false)
+    (hn : (topA c p {}).2.log.any isSyncX = false) : (topA c p {}).1 = (topCall c p s').1 :=
+  topA_sem c p hy hx s' hm' hn
 
-/-- `asynq.result(v)` is `return v` on both paths (the former counterexample) -/
-theorem C15_result_is_return (c : Call) (p : Prog) (s : St) :
-    topA c (Prog.unres p) s = topA c p s ∧ topCall c (Prog.unres p) s = topCall c p s :=
-  ⟨topA_unres c p s, topCall_unres c p s⟩
+/-- **every delivery agrees, in every task** (the statement behind "keeps the shape", "first failure in structure order",
+    "try/except behaves the same"): run `await fn.asyncio(args)` and `fn(args)`; project both logs (oldest first) on
+    "task t started", "the i-th yield of task t returned value v / raised e", "task t ended with o".
+    * If the asyncio run attempted no synchronous call, the two projections are EQUAL - every task of the tree started, was
+      resumed as often, received at each yield the same value (same shape) or the same exception and ended the same way as
+      under asynq - and the outcomes are equal.
+    * Otherwise the asyncio projection up to the first (refused) synchronous call is a PREFIX of the asynq projection.  (This
+      second clause is about the MODEL, whose evaluators are sequential: where the first refusal falls relative to the events
+      of OTHER tasks depends on how the event loop interleaves sibling coroutines, so the observer `spec` does not read it.) -/
+theorem C15_deliveries_agree_partial (c : Call) (p : Prog) (hy : p.plainY = true) (hx : p.safe = true) :
+    ((topA c p {}).2.log.reverse.any isSyncX = false →
+        (topA c p {}).1 = (topCall c p {}).1 ∧
+        proj (topA c p {}).2.log.reverse = proj (topCall c p {}).2.log.reverse) ∧
+    ((topA c p {}).2.log.reverse.any isSyncX = true →
+        proj (cutSync (topA c p {}).2.log.reverse) <+: proj (topCall c p {}).2.log.reverse) :=
+  top_deliveries c p hy hx
 
-/-- **the flag is confined** (ALL programs, also with `result()`, whatever the outcome - value, exception, escaping
-    AsyncTaskResult): after `await fn.asyncio(args)` the asyncio-mode flag of the awaiting context is what it was before -/
-theorem C15_mode_confined (c : Call) (p : Prog) (s : St) : (topA c p s).2.mode = s.mode := by
-  simp [topA, callA_mode]
+/-- the same per task: the sub-log of every task `t` is the same under both engines -/
+theorem C15_deliveries_agree_per_task_partial (c : Call) (p : Prog) (hy : p.plainY = true) (hx : p.safe = true)
+    (hn : (topA c p {}).2.log.reverse.any isSyncX = false) (t : Nat) :
+    onTask t (proj (topA c p {}).2.log.reverse) = onTask t (proj (topCall c p {}).2.log.reverse) := by
+  rw [((top_deliveries c p hy hx).1 hn).2]
 
-/-- the same at every level: resolving any yielded structure (children awaited directly or through `_gather`) leaves the
-    flag of the running coroutine as it was -/
+/-- **a run ends with the end of its own task, carrying the outcome the caller sees** (ALL programs, all five ways of
+    running): the log opens with an event of the root task and the last event of that task is `fin root outcome` -/
+theorem C15_run_ends_with_outcome (c : Call) (p : Prog) : ∀ ob ∈ observe c p, rootOk ob = true := by
+  intro ob hob
+  simp only [observe, allConvs, List.map_cons, List.map_nil, List.mem_cons, List.not_mem_nil, or_false] at hob
+  have hv := topValue_eq_topCall c p {} rfl
+  rcases hob with h | h | h | h | h <;> subst h
+  · exact topCall_root c p _ rfl rfl
+  · exact topCall_root c p _ (by rw [show (observe1 .value c p).log = (topValue c p {}).2.log.reverse from rfl, hv])
+      (by rw [show (observe1 .value c p).out = (topValue c p {}).1 from rfl, hv])
+  · exact topA_root c p _ rfl rfl
+  · exact topA_root c p _ rfl rfl
+  · exact topA_root c p _ rfl rfl
+
+/-- no computation ends with an escaping AsyncTaskResult (ALL programs) -/
+theorem C15_no_result_escapes (c : Call) (p : Prog) :
+    isEsc (topA c p {}).1 = false ∧ isEsc (topCall c p {}).1 = false := ⟨topA_noEsc c p, topCall_noEsc c p⟩
+
+/-- the flag at every level: resolving any yielded structure (children awaited directly or through `_gather`, each in its
+    own copy of the context) leaves the flag of the running coroutine as it was (induction over the structure) -/
 theorem C15_mode_confined_nested (y : Ys) (s : St) : (resolveA y s).2.mode = s.mode := resolveA_mode y s
 
 /-- the asynq paths never touch the flag -/
@@ -61,29 +106,16 @@ theorem C15_mode_untouched_by_asynq (c : Call) (p : Prog) (s : St) :
     · rfl
     · rw [bodyR_mode]; rfl
 
-/-- **a synchronous call while the flag is on is refused** (ALL programs): the callee's body does not run (nothing of it
-    is logged), the caller sees RuntimeError at the call and continues in its handler -/
-theorem C15_sync_refused (gen : Bool) (t : Nat) (env : List Val) (caught : Option Err) (i : Nat)
-    (c : Call) (child k h : Prog) (s : St) (hm : s.mode = true) :
-    bodyA gen t env caught i (.sync c child k h) s =
-      bodyA gen t env (some .syncRefused) i h (s.emit (.syncX t (.err .syncRefused))) := by
-  simp [bodyA, hm, Err.isBase]
-
-/-- the same call made from the top level while the flag is on -/
-theorem C15_sync_refused_top (c : Call) (p : Prog) (s : St) (hm : s.mode = true) :
-    topCall c p s = (.err .syncRefused, s) := by
-  simp [topCall, hm]
+/-- **inside, the flag is on; everything the engine awaits together completes before the yield returns or raises; every
+    synchronous call attempted is refused and its callee never runs** (ALL programs): every event logged by an asyncio run
+    satisfies `evOkA` (a callee run by a synchronous call would log `start _ false`, which `evOkA` rejects) -/
+theorem C15_asyncio_run_good (c : Call) (p : Prog) : (topA c p {}).2.log.all evOkA = true := (topA_good c p).2
 
 /-- the asynq side of the same statement, for ALL programs: flag off inside, siblings complete first, synchronous calls
     allowed -/
 theorem C15_asynq_run_good (c : Call) (p : Prog) : (topCall c p {}).2.log.all evOkR = true := (topCall_good c p).2
 
-/-- **`_gather`: all awaited, then the first failure in list order** (ALL programs): the result of gathering is
-    `firstFailure` of the outcomes of ALL elements (each run to completion), ... -/
-theorem C15_gather_first_failure (l : YsL) (s : St) : (gatherA l s).1 = firstFailure (elemsA l s) :=
-  gatherA_firstFailure l s
-
-/-- ... and `firstFailure` of a list whose first failing element is `o` is `o`, whatever the later elements did -/
+/-- `firstFailure` of a list whose first failing element is `o` is `o`, whatever the later elements did -/
 theorem C15_first_failure_wins (pre : List Out) (o : Out) (post : List Out)
     (hpre : pre.all Out.isOk = true) (ho : o.isOk = false) :
     firstFailure (pre ++ o :: post) = o.asFailure := firstFailure_split pre o post hpre ho
@@ -91,20 +123,6 @@ theorem C15_first_failure_wins (pre : List Out) (o : Out) (post : List Out)
 /-- **shape**: a value delivered at a yield has the shape of the yielded structure (ALL programs) -/
 theorem C15_shape (y : Ys) (s : St) (v : Val) (h : (resolveA y s).1 = .ok v) : shapeOk y v = true :=
   resolveA_shape y s v h
-
-/-- **inside, the flag is on; siblings complete first; sync calls refused** (ALL programs): every event logged by an
-    asyncio run satisfies `evOkA` -/
-theorem C15_asyncio_run_good (c : Call) (p : Prog) : (topA c p {}).2.log.all evOkA = true := by
-  have h := asyncio_run_good_noRes c (Prog.unres p) (Prog.unres_noRes p)
-  simpa [topA_unres] using h
-
-/-- **C15 as a whole** (ALL programs): the observations of the model under all five ways of running a program are accepted
-    by the observer `spec`, the same Boolean function the check evaluates on the observations of the real implementation -/
-theorem C15_spec_holds_partial (c : Call) (p : Prog) (hx : p.safe = true) : spec (observe c p) = true := by
-  have h := spec_holds_noRes c (Prog.unres p) (Prog.unres_noRes p) (by rw [Prog.unres_safe]; exact hx)
-  simpa [observe_unres] using h
-
-/-! ## values are opaque; a failure raised at a yield is the failure of one of the awaitables -/
 
 /-- **`_gather` returns the values untouched** (ALL programs, ALL kinds of value): if every awaitable yielded together ended
     with a value - an exception INSTANCE returned as a value included - the yield receives exactly those values, in order -/
@@ -117,7 +135,21 @@ theorem C15_failure_is_an_element (l : YsL) (s : St) (e : Err) (h : (gatherA l s
     Out.err e ∈ elemsA l s := by
   rw [gatherA_firstFailure] at h; exact firstFailure_err_mem _ e h
 
-/-! ## BaseException-only errors -/
+/-- **CORR = ok implies SPEC = SPECM** (ALL observations, no hypothesis): `spec` reads of a log only what the correspondence
+    check compares - the canonical per-task form `canonE` and the first event - and never the relative order of events of
+    different tasks; so if the check finds the model's and the implementation's observations equal (`sameViews`), the observer
+    gives both the same verdict, clause for clause -/
+theorem C15_spec_respects_correspondence (model impl : List Obs) (h : sameViews model impl = true) :
+    specClause model = specClause impl ∧ spec model = spec impl := by
+  have := specClause_congr h
+  exact ⟨this, by simp [spec, this]⟩
+
+/-- **C15 as a whole**: the observations of the model under all five ways of running a program are accepted by the
+    observer `spec`, the same Boolean function the check evaluates on the observations of the real implementation -/
+theorem C15_spec_holds_partial (c : Call) (p : Prog) (hy : p.plainY = true) (hx : p.safe = true) :
+    spec (observe c p) = true := spec_holds c p hy hx
+
+/-! ## Section B: where the code as it is violates the property (genuine divergences), and why each hypothesis is needed -/
 
 /-- asyncio side (the code as it is): a BaseException-only error of an awaited structure is never delivered to the body -
     whatever its handler is, the coroutine ends with that error -/
@@ -133,26 +165,107 @@ theorem C15_base_error_leaves_asyncio (t : Nat) (env : List Val) (caught : Optio
 theorem C15_base_error_delivered_by_asynq (t : Nat) (env : List Val) (caught : Option Err) (i : Nat) (y : Ys)
     (k h : Prog) (s : St) (e : Err) (hy : (ysR y s).1 = .err e) :
     (bodyR true t env caught i (.yld true y k h) s).1 =
-      (bodyR true t env (some e) (i + 1) h ((ysR y s).2.emit (.run t (i + 1) ((ysR y s).2.dc y) (ysR y s).2.mode (.err e)))).1 := by
+      (bodyR true t env (some e) (i + 1) h
+        ((ysR y s).2.emit (.run t (i + 1) ((ysR y s).2.dc (Ys.labelsR y)) (ysR y s).2.mode (.err e)))).1 := by
   conv => lhs; unfold bodyR
   rcases hR : ysR y s with ⟨r, s1⟩
   rw [hR] at hy; simp only at hy; subst hy
   simp
 
-/-- **counterexample to the unrestricted statement** (genuine divergence of the code as it is): the body
-    `try: yield child.asynq() / except BaseException: return 2` with a child raising a BaseException-only error returns 2
-    under `fn(args)` and raises the error under `await fn.asyncio(args)`; the observer rejects it -/
-theorem C15_base_handler_counterexample :
-    let c : Call := { kind := .gen, afn := false, label := 0 }
-    let p : Prog := .yld true (.task { kind := .gen, afn := false, label := 1 } (.raiseB 1)) (.ret 1) (.ret 2)
-    (topCall c p {}).1 = .ok (.node 2 []) ∧ (topA c p {}).1 = .err (.b 1) ∧ spec (observe c p) = false := by
-  decide
-
-/-! ## non-vacuity -/
-
 private def cG (n : Nat) : Call := { kind := .gen, afn := false, label := n }
 private def cM (n : Nat) : Call := { kind := .meth, afn := true, label := n }
 private def cP (n : Nat) : Call := { kind := .proxy, afn := false, label := n }
+
+/-- **`p.safe` cannot be dropped** (genuine divergence of the code as it is, recorded finding
+    `base-exception-not-delivered-to-handler`): the body `try: yield child.asynq() / except BaseException: return 2` with a
+    child raising a BaseException-only error returns 2 under `fn(args)` and raises the error under
+    `await fn.asyncio(args)`; the observer rejects it -/
+theorem C15_base_handler_counterexample :
+    let c : Call := { kind := .gen, afn := false, label := 0 }
+    let p : Prog := .yld true (.task { kind := .gen, afn := false, label := 1 } (.raiseB 1)) (.ret 1) (.ret 2)
+    p.plainY = true ∧ p.noSync = true ∧
+    (topCall c p {}).1 = .ok (.node 2 []) ∧ (topA c p {}).1 = .err (.b 1) ∧ spec (observe c p) = false := by
+  decide
+
+/-- **`p.plainY` cannot be dropped, 1** (genuine divergence of the code as it is, finding
+    `container-subclass-yield-accepted-by-asyncio`): `v = yield P(ConstFuture(1), ConstFuture(2))` with `P` a namedtuple
+    (any subclass of tuple / list / dict): `fn(args)` raises TypeError "Cannot unwrap" at the yield (`type(value) is tuple`
+    in async_task.py `unwrap` / `extract_futures`), `await fn.asyncio(args)` delivers the plain tuple `(1, 2)`
+    (`isinstance(x, tuple)` in asynq_to_async.py `resolve_awaitables`); the observer rejects it -/
+theorem C15_container_subclass_counterexample :
+    let c : Call := { kind := .gen, afn := false, label := 0 }
+    let p : Prog := .yld false (.sub (.tup (.cons (.const 1) (.cons (.const 2) .nil)))) (.ret 1) .reraise
+    p.safe = true ∧ p.noSync = true ∧
+    (topCall c p {}).1 = .err .typeerr ∧ (topA c p {}).1 = .ok (.node 1 [.tup [.a 1, .a 2]]) ∧
+    spec (observe c p) = false := by
+  decide
+
+/-- **`p.plainY` cannot be dropped, 2** (genuine divergence of the code as it is, finding
+    `async-proxy-non-future-result-not-resolved`): `v = yield proxy.asynq()` where the @async_proxy() function returns None:
+    `fn(args)` delivers None, `await fn.asyncio(args)` raises TypeError "object NoneType can't be used in 'await'
+    expression" out of `unwrap_coroutine` (decorators.py AsyncProxyDecorator.asyncio); the same for a returned list of
+    futures; the observer rejects both -/
+theorem C15_proxy_value_counterexample :
+    let c : Call := { kind := .gen, afn := false, label := 0 }
+    let p : Prog := .yld false (.pval .none) (.ret 1) .reraise
+    let q : Prog := .yld false (.pval (.lst (.cons (.task { kind := .gen, afn := false, label := 1 } (.ret 5)) .nil)))
+      (.ret 1) .reraise
+    p.safe = true ∧ p.noSync = true ∧
+    (topCall c p {}).1 = .ok (.node 1 [.none]) ∧ (topA c p {}).1 = .err .other ∧ spec (observe c p) = false ∧
+    (topCall c q {}).1 = .ok (.node 1 [.lst [.node 5 []]]) ∧ (topA c q {}).1 = .err .other ∧
+    spec (observe c q) = false := by
+  decide
+
+/-- **`p.noSync` (resp. "no synchronous call logged") cannot be dropped** - by design, not a defect: a plain synchronous
+    call is performed by asynq and refused under asyncio, so the outcomes differ; the observer accepts this run (the clauses
+    that apply are "refused" and "the outcome is the one the root task ended with") -/
+theorem C15_noSync_necessary :
+    let p : Prog := .sync (cG 1) (.ret 1) (.ret 2) (.ret 3)
+    p.plainY = true ∧ p.safe = true ∧
+    (topA (cG 0) p {}).1 = .ok (.node 3 []) ∧ (topCall (cG 0) p {}).1 = .ok (.node 2 [.node 1 []]) ∧
+    spec (observe (cG 0) p) = true := by
+  decide
+
+/-- **`s'.mode = false` cannot be dropped**: `fn(args)` called while the flag is on is itself refused -/
+theorem C15_flag_off_necessary :
+    (topA (cG 0) (.ret 1) {}).1 = .ok (.node 1 []) ∧ (topCall (cG 0) (.ret 1) { mode := true }).1 = .err .syncRefused := by
+  decide
+
+/-! ## Section C: statements that hold BY CONSTRUCTION of the model (one unfolding of a definition).  They are kept because
+    they document how the model renders the code (`with AsyncioMode()` as enter / exit around the body, `__call__` in asyncio
+    mode as an immediate RuntimeError, `result()` handled like `return`, `_gather` as "evaluate all, then combine"); their
+    content lies in the correspondence check (flag after a run and canary call on every path, `syncX` events, `dc` bits and
+    per-task deliveries of the real library equal to the model's), not in their proofs. -/
+
+/-- by construction of `callA` (holds for an arbitrary body function): the flag is restored whatever the outcome -/
+theorem C15_mode_confined (c : Call) (p : Prog) (s : St) : (topA c p s).2.mode = s.mode := by
+  simp [topA, callA_mode]
+
+/-- by construction of `bodyA` (one unfolding): a synchronous call while the flag is on is refused, nothing of the callee is
+    logged, the caller continues in its handler with RuntimeError -/
+theorem C15_sync_refused (gen : Bool) (t : Nat) (env : List Val) (caught : Option Err) (i : Nat)
+    (c : Call) (child k h : Prog) (s : St) (hm : s.mode = true) :
+    bodyA gen t env caught i (.sync c child k h) s =
+      bodyA gen t env (some .syncRefused) i h (s.emit (.syncX t (.err .syncRefused))) := by
+  simp [bodyA, hm, Err.isBase]
+
+/-- by construction of `topCall`: the same call made from the top level while the flag is on -/
+theorem C15_sync_refused_top (c : Call) (p : Prog) (s : St) (hm : s.mode = true) :
+    topCall c p s = (.err .syncRefused, s) := by
+  simp [topCall, hm]
+
+/-- by construction (`bodyA` / `bodyR` have the same clause for `res` and `ret`): `asynq.result(v)` is `return v` on both
+    paths -/
+theorem C15_result_is_return (c : Call) (p : Prog) (s : St) :
+    topA c (Prog.unres p) s = topA c p s ∧ topCall c (Prog.unres p) s = topCall c p s :=
+  ⟨topA_unres c p s, topCall_unres c p s⟩
+
+/-- by construction of `gatherA` (it IS "evaluate every element, then combine"): the result of gathering is `firstFailure`
+    of the outcomes of all elements -/
+theorem C15_gather_first_failure (l : YsL) (s : St) : (gatherA l s).1 = firstFailure (elemsA l s) :=
+  gatherA_firstFailure l s
+
+/-! ## non-vacuity -/
 
 /-- a dict with two failing entries (the first in structure order is the deeper one) and a succeeding one, caught, then
     a further yield in the handler -/
@@ -164,21 +277,88 @@ private def demo : Prog :=
     (.ret 1)
     (.yld false (.task (cG 4) (.ret 2)) (.ret 3) .reraise)
 
+example : demo.plainY = true ∧ demo.safe = true ∧ demo.noSync = true := by decide
 example : (topA (cG 0) demo {}).1 = .ok (.node 3 [.node 2 []]) := by decide
 example : (topCall (cG 0) demo {}).1 = .ok (.node 3 [.node 2 []]) := by decide
 example : spec (observe (cG 0) demo) = true := by decide
 /-- the handler really received the FIRST failure in structure order (user error 4, not 5), with all siblings finished -/
 example : (topA (cG 0) demo {}).2.log.any (fun e => e == .run 0 1 true true (.err (.u 4))) = true := by decide
+/-- the two projections of `C15_deliveries_agree_partial` are equal and not empty (13 events) -/
+example : proj (topA (cG 0) demo {}).2.log.reverse = proj (topCall (cG 0) demo {}).2.log.reverse ∧
+    (proj (topA (cG 0) demo {}).2.log.reverse).length = 13 := by decide
 /-- a synchronous call inside an asyncio run is refused, and the same program run by asynq performs it -/
 example : (topA (cG 0) (.sync (cG 1) (.ret 1) (.ret 2) (.ret 3)) {}).1 = .ok (.node 3 []) ∧
     (topCall (cG 0) (.sync (cG 1) (.ret 1) (.ret 2) (.ret 3)) {}).1 = .ok (.node 2 [.node 1 []]) := by decide
-/-- the observer is not trivially true: it rejects a run that leaves the flag on ... -/
+
+/-- a program that works, then makes a synchronous call in a child, then goes on: the prefix clause of
+    `C15_deliveries_agree_partial` is not vacuous (4 events before the refusal) -/
+private def demoSync : Prog :=
+  .yld false (.task (cG 1) (.ret 4))
+    (.yld false (.task (cG 2) (.sync (cG 3) (.ret 1) (.ret 2) (.raise 7))) (.ret 5) (.ret 6))
+    .reraise
+example : (topA (cG 0) demoSync {}).2.log.reverse.any isSyncX = true ∧
+    (proj (cutSync (topA (cG 0) demoSync {}).2.log.reverse)).length = 5 ∧
+    spec (observe (cG 0) demoSync) = true := by decide
+
+/-! ### the observer rejects the wrong observations listed by the audit (B1) -/
+
+/-- it rejects a run that leaves the flag on ... -/
 example : spec ((observe (cG 0) (.ret 1)).map (fun ob => if ob.conv == .aio then { ob with after := true } else ob)) = false := by
   decide
-/-- ... and one that delivers a failure before a sibling has finished -/
+/-- ... one that delivers a failure before a sibling has finished ... -/
 example : spec ((observe (cG 0) demo).map (fun ob =>
     { ob with log := ob.log.map (fun e => match e with | .run t i _ m r => .run t i (!ob.conv.isAio) m r | e => e) })) = false := by
   decide
+/-- ... (B1 a) one in which every asyncio run delivered the SECOND failure in structure order (5 instead of 4) at the yield ... -/
+example : specClause ((observe (cG 0) demo).map (fun ob =>
+    if ob.conv.isAio then { ob with log := ob.log.map (fun e => match e with
+      | .run 0 i d m (.err (.u 4)) => .run 0 i d m (.err (.u 5)) | e => e) } else ob)) = "deliveries" := by
+  decide
+/-- ... (B1 b) one in which a yielded tuple came back as a list of another length (in a task that fails later, so that the
+    outcome does not show it) ... -/
+private def shp : Prog := .yld false (.tup (.cons (.const 1) (.cons (.const 2) .nil))) (.raise 3) .reraise
+example : specClause ((observe (cG 0) shp).map (fun ob =>
+    if ob.conv.isAio then { ob with log := ob.log.map (fun e => match e with
+      | .run t i d m (.ok _) => .run t i d m (.ok (.lst [.a 2])) | e => e) } else ob)) = "deliveries" := by
+  decide
+example : spec (observe (cG 0) shp) = true := by decide
+/-- ... (B1 c) five runs with empty logs and an arbitrary common outcome ... -/
+private def mkObs (cv : Conv) (o : Out) : Obs :=
+  { conv := cv, before := false, out := o, after := false, canary := .ok (retVal 0 []), log := [] }
+example : specClause (allConvs.map (fun cv => mkObs cv (.esc (.a 1)))) = "result-escapes" := by decide
+example : specClause (allConvs.map (fun cv => mkObs cv (.err .syncRefused))) = "root-outcome" := by decide
+example : specClause (allConvs.map (fun cv => mkObs cv (.ok (.a 1)))) = "root-outcome" := by decide
+/-- ... (B1 d) an asyncio run that attempted a synchronous call and reports an outcome its own task never produced ... -/
+example : specClause ((observe (cG 0) (.sync (cG 1) (.ret 1) (.ret 2) (.ret 3))).map (fun ob =>
+    if ob.conv.isAio then { ob with out := .ok (.a 999) } else ob)) = "root-outcome" := by
+  decide
+/-- ... one in which a synchronous call was NOT refused under asyncio ... -/
+example : specClause ((observe (cG 0) demoSync).map (fun ob =>
+    if ob.conv.isAio then { ob with log := ob.log.map (fun e => match e with
+      | .syncX t _ => .syncX t (.ok (.a 0)) | e => e) } else ob)) = "sync-refused" := by
+  decide
+/-- ... (B1 e) and one whose asyncio logs are empty although the outcome is right. -/
+example : specClause ((observe (cG 0) demo).map (fun ob => if ob.conv.isAio then { ob with log := [] } else ob))
+    = "deliveries" := by
+  decide
+
+/-- `C15_spec_respects_correspondence` is not vacuous: letting the second sibling start before the first one has finished
+    (events 3 and 4 of every log swapped, as a real event loop does) keeps the view and the verdict; a changed delivery does not -/
+private def sibs : Prog := .yld false (.lst (.cons (.task (cG 1) (.ret 1)) (.cons (.task (cG 2) (.ret 2)) .nil))) (.ret 3) .reraise
+private def swap34 : List Ev → List Ev
+  | a :: b :: c :: d :: l => a :: b :: d :: c :: l
+  | l => l
+example : ((observe (cG 0) sibs).map (fun ob => ob.log.take 4)).head? =
+    some [.start 0 false, .start 1 false, .fin 1 (.ok (.node 1 [])), .start 2 false] := by decide
+example : sameViews (observe (cG 0) sibs) ((observe (cG 0) sibs).map (fun ob => { ob with log := swap34 ob.log })) = true ∧
+    spec ((observe (cG 0) sibs).map (fun ob => { ob with log := swap34 ob.log })) = true := by
+  decide
+example : sameViews (observe (cG 0) shp) ((observe (cG 0) shp).map (fun ob =>
+    if ob.conv.isAio then { ob with log := ob.log.map (fun e => match e with
+      | .run t i d m (.ok _) => .run t i d m (.ok (.lst [.a 2])) | e => e) } else ob)) = false := by
+  decide
+
+/-! ### further instances -/
 
 /-- `asynq.result()` anywhere: the asyncio run returns what `fn(args)` returns and the observer accepts -/
 example : (topA (cG 0) (.yld false (.lst (.cons (.task (cG 1) (.res 5)) .nil)) (.res 1) .reraise) {}).1 =
@@ -191,7 +371,7 @@ private def demoB : Prog :=
   .yld false (.lst (.cons (.task (cG 1) (.yld false .none (.raiseB 1) .reraise)) (.cons (.task (cM 2) (.raise 2)) .nil)))
     (.ret 1) (.ret 2)
 example : (topA (cG 0) demoB {}).1 = .err (.b 1) ∧ (topCall (cG 0) demoB {}).1 = .err (.b 1) := by decide
-example : demoB.safe = true ∧ spec (observe (cG 0) demoB) = true := by decide
+example : demoB.safe = true ∧ demoB.plainY = true ∧ spec (observe (cG 0) demoB) = true := by decide
 /-- the ordinary failure first: the handler runs in both engines although a BaseException-only error is among the siblings -/
 example : (topA (cG 0) (.yld false (.lst (.cons (.task (cM 2) (.raise 2)) (.cons (.task (cG 1) (.raiseB 1)) .nil))) (.ret 1) (.ret 2)) {}).1
     = .ok (.node 2 []) := by decide
@@ -201,5 +381,18 @@ example : (Prog.yld true (.task (cG 1) (.raise 2)) (.ret 1) (.ret 2)).safe = tru
 example : valueKind 12 = .exc ∧
     (topA (cG 0) (.yld false (.lst (.cons (.task (cG 1) (.ret 12)) .nil)) (.ret 1) (.ret 2)) {}).1 =
       .ok (.node 1 [.lst [.node 12 []]]) := by decide
+
+/-- `C15_shape` is not vacuous (a dict of a tuple and an empty list resolves, with the flag on, to a value of that shape) and
+    `shapeOk` is not trivially true -/
+private def y1 : Ys := .dict [7, 8] (.cons (.tup (.cons (.task (cG 3) (.ret 9)) (.cons .none .nil))) (.cons (.lst .nil) .nil))
+example : (resolveA y1 { mode := true }).1 = .ok (.dict [7, 8] [.tup [.node 9 [], .none], .lst []]) ∧
+    shapeOk y1 (.dict [7, 8] [.tup [.node 9 [], .none], .lst []]) = true := by decide
+example : shapeOk y1 (.lst []) = false ∧ shapeOk y1 (.dict [7, 8] [.tup [.a 1], .lst []]) = false := by decide
+/-- `C15_first_failure_wins` is not vacuous -/
+example : firstFailure ([.ok (.a 1)] ++ .err (.u 4) :: [.err (.u 5), .ok (.a 2)]) = (Out.err (.u 4)).asFailure ∧
+    ([Out.ok (.a 1)]).all Out.isOk = true ∧ (Out.err (.u 4)).isOk = false := by decide
+/-- `C15_gather_all_ok` / `C15_failure_is_an_element` are not vacuous -/
+example : (elemsA (.cons (.const 1) (.cons (.task (cG 1) (.ret 12)) .nil)) { mode := true }).all Out.isOk = true := by decide
+example : (gatherA (.cons (.const 1) (.cons (.task (cG 1) (.raise 3)) .nil)) { mode := true }).1 = .err (.u 3) := by decide
 
 end AsynqModel.Asyncio
